@@ -354,6 +354,47 @@ func main() {
 	fmt.Fprintf(&b, "/-- byte lengths DecodeClusterSecret accepts after hex decoding (0 = no secret) -/\ndef secretLens : List Nat := [%s]\n\n", strings.Join(lens, ", "))
 	fmt.Fprintf(&b, "/-- config.DisplayJSON replaces every field tagged hidden:\"true\" by a constant -/\ndef displayReplacesHidden : Bool := %s\n\n", lbool(hid))
 	fmt.Fprintf(&b, "/-- config.Manager.LoadJSON ends with `return cfg.Validate()` -/\ndef managerLoadEndsWithValidate : Bool := %s\n\n", lbool(mgrValidates))
+	// round 8: semantic tables of config/util.go, config/identity.go, config/config.go
+	q := func(l []string) string {
+		var o []string
+		for _, x := range l {
+			o = append(o, strconv.Quote(x))
+		}
+		return "[" + strings.Join(o, ", ") + "]"
+	}
+	arms, err := common.C15SindArms(repo)
+	if err != nil {
+		fmt.Fprintln(os.Stderr, err)
+		os.Exit(1)
+	}
+	var al []string
+	for _, a := range arms {
+		al = append(al, fmt.Sprintf("(%q, %q)", a.Type, a.Guard))
+	}
+	fmt.Fprintf(&b, "/-- config.SetIfNotDefault: the arms of its type switch (Go type, guard under which dest is assigned) -/\ndef sindArms : List (String × String) := [%s]\n\n", strings.Join(al, ", "))
+	seq, err := common.C15IdentApplySeq(repo)
+	if err != nil {
+		fmt.Fprintln(os.Stderr, err)
+		os.Exit(1)
+	}
+	evName := map[string]string{"decode-id": ".decodeId", "ret-err": ".retErr", "set-id": ".setId", "b64": ".b64", "unmarshal-key": ".unmarshalKey",
+		"set-key": ".setKey", "ret-validate": ".retValidate", "ret-nil": ".retNil"}
+	var evs []string
+	for _, e := range seq {
+		if n, ok := evName[e]; ok {
+			evs = append(evs, n)
+		} else {
+			evs = append(evs, ".unknown")
+		}
+	}
+	fmt.Fprintf(&b, "/-- Identity.applyIdentityJSON as a sequence of events -/\ndef identApplySeq : List Ident.Ev := [%s]\n\n", strings.Join(evs, ", "))
+	order, reach, err := common.C15ManagerEnvOrder(repo)
+	if err != nil {
+		fmt.Fprintln(os.Stderr, err)
+		os.Exit(1)
+	}
+	fmt.Fprintf(&b, "/-- Manager.LoadJSONFileAndEnv: its calls in order -/\ndef fileAndEnvOrder : List String := %s\n\n", q(order))
+	fmt.Fprintf(&b, "/-- Manager.ApplyEnvVars: what it reaches -/\ndef managerEnvReach : List String := %s\n\n", q(reach))
 	b.WriteString("end CV.C15.Gen\n")
 	fmt.Print(b.String())
 }
